@@ -209,7 +209,38 @@ func famCanon(f *FamCtx) {
 
 // genPersistCase: mutate / persist (recording every Store) / reload cycles, shapes decoded
 // from the stored bytes.
+// genWideNodeCase: one node whose entry count walks over 127 / 128 / 129 (keys without any higher
+// layer: the tree cannot grow), persisted and reloaded at each count, then shrunk back.
+func genWideNodeCase(r *rand.Rand, cfg Cfg) Case {
+	cfg = noCache(cfg)
+	cfg.KK = "vk"
+	var ops []string
+	ops = append(ops, "new 0")
+	n := 0
+	ins := func(upto int) {
+		for ; n < upto; n++ {
+			ops = append(ops, opIns(0, uint64(1000+n*3)<<8, uint64(n%5)))
+		}
+	}
+	ins(125 + r.Intn(2))
+	nroot := 0
+	for _, upto := range []int{127, 128, 129, 130} {
+		ins(upto)
+		ops = append(ops, fmt.Sprintf("roots 0 %d", nroot), fmt.Sprintf("pshape %d", nroot), fmt.Sprintf("load %d 1", nroot), "iter 1", "stat 1")
+		nroot++
+	}
+	for d := 0; d < 3; d++ {
+		k := r.Intn(n)
+		ops = append(ops, opDel(0, uint64(1000+k*3)<<8, uint64(k%5)), fmt.Sprintf("roots 0 %d", nroot), fmt.Sprintf("load %d 1", nroot), "iter 1")
+		nroot++
+	}
+	return Case{cfg, ops}
+}
+
 func genPersistCase(r *rand.Rand, cfg Cfg) Case {
+	if r.Intn(20) == 0 {
+		return genWideNodeCase(r, cfg)
+	}
 	cfg = noCache(cfg)
 	uni := Universe(r, cfg, 4+r.Intn(80))
 	ops := []string{"new 0"}
@@ -397,7 +428,7 @@ func genSharedCachePersistCase(r *rand.Rand, cfg Cfg) Case {
 }
 
 func famPersist(f *FamCtx) {
-	f.Report.Rule = "1-5 cycles of (batch of inserts/updates/deletes, sometimes empty, sometimes delete-to-empty) -> MakeRoot on a recording store without cache (every Store call's name and bytes compared with the model's encoder and BLAKE2b) -> shape decoded by the harness from the stored bytes (C09 invariants evaluated in Go, graph compared with the model) -> reload through a JSON round-trip of the Root; one case in four: a multi-level version loaded twice through one node cache, interior keys deleted in one tree, the other modified afterwards (or: the other deletes next to and then the same interior keys before the first is persisted), both persisted versions decoded and checked; or: a version persisted through the cache, the tree modified further (new keys of every layer, then updates and deletes of old keys) and every recorded root re-read through the cache before and after the next persist; non-trivial = reached height >= 1 and changed height"
+	f.Report.Rule = "1-5 cycles of (batch of inserts/updates/deletes, sometimes empty, sometimes delete-to-empty) -> MakeRoot on a recording store without cache (every Store call's name and bytes compared with the model's encoder and BLAKE2b) -> shape decoded by the harness from the stored bytes (C09 invariants evaluated in Go, graph compared with the model) -> reload through a JSON round-trip of the Root; one case in twenty: a single node whose entry count walks over 127 / 128 / 129, persisted and reloaded at each count; one case in four: a multi-level version loaded twice through one node cache, interior keys deleted in one tree, the other modified afterwards (or: the other deletes next to and then the same interior keys before the first is persisted), both persisted versions decoded and checked; or: a version persisted through the cache, the tree modified further (new keys of every layer, then updates and deletes of old keys) and every recorded root re-read through the cache before and after the next persist; non-trivial = reached height >= 1 and changed height"
 	f.Gen = func() Case {
 		if f.Rand.Intn(4) == 0 {
 			return genSharedCachePersistCase(f.Rand, RandCfg(f.Rand))
